@@ -248,6 +248,36 @@ def dirscan_sweep(rnd):
     return out
 
 
+def empty_and_quote_arguments():
+    """Every directive / keyword / built-in call with the EMPTY value in both spellings, a lone quote, an unterminated quote and
+    quote + backslash as its argument (also after several blanks), as lines of a parsed file and as spifconf_shell_expand()
+    inputs; the empty string as config file name, as context name and as built-in name."""
+    out = []
+    args = ['"', "'", '""', "''", '"abc', "'abc", ' "', "   '", '" ', '"\\', "'\\'", '"\\"', "", " "]
+    heads = ["%include", "%preproc", "begin", "end", "%put(", "%get(", "%random(", "%dirscan(", "%exec(", "%version(", "%appname(", "%"]
+    for h in heads:
+        texts = []
+        for a in args:
+            t = (h + a + ")") if h.endswith("(") else (h + " " + a)
+            texts.append(t.encode())
+        s = Script("adv:empty-quote")
+        s.file("m.cfg", MAGIC + b"".join(t + b"\n" for t in texts) + b"begin A\n" + b"".join(b"v " + t + b"\n" for t in texts) + b"end\n")
+        s.init(); s.reg("null", 1); s.reg("A", 2); s.reg("", 3)
+        s.parse("m.cfg")
+        for t in texts:
+            s.expand(t)
+        s.free()
+        out.append(s)
+    s = Script("adv:empty-quote")
+    s.file("m.cfg", MAGIC + b"begin \"\"\nx\nend\n%include \"\"\n%include ''\n")
+    for _ in range(2):
+        s.init(); s.reg("", 1); s.reg("null", 2); s.regbi("")
+        s.parse(""); s.parse("m.cfg"); s.parse("", "", ""); s.parse("m.cfg", "", ""); s.parse("m.cfg", "", ":"); s.expand(b""); s.expand(b"%()")
+        s.free()
+    out.append(s)
+    return out
+
+
 def path_and_environment_families():
     """spifconf_parse(name, dir, path) - the form that looks the file up and changes directory - crossed with where the file
     is found (cwd, dir argument, relative / absolute / second path entry), what it is (good, wrong magic, empty, missing) and the
@@ -680,7 +710,7 @@ def run(ctx):
     model_check(ctx)
     log("model checking done %.0fs" % (time.time() - ctx.t0))
     rnd = random.Random(ctx.seed)
-    adv = adversarial(rnd) + builtin_near_misses() + dirscan_sweep(rnd) + path_and_environment_families()
+    adv = adversarial(rnd) + builtin_near_misses() + dirscan_sweep(rnd) + path_and_environment_families() + empty_and_quote_arguments()
     ev = drive(ctx, exe, adv, "adversarial")
     ctx.sample({"adversarial_families": sorted(set(re.sub(r"-\d+$", "", s.fam) for s in adv))})
     log("adversarial done %.0fs" % (time.time() - ctx.t0))
